@@ -139,7 +139,7 @@ fn spanning_history(rng: &mut Rng, variant: u64) -> (Cfg, Vec<Op>, Vec<u8>) {
     let others: Vec<Vec<u8>> = [1usize, 5, 10, 11].iter().map(|i| ALPHABET[*i].to_vec()).collect();
     let mut ops = vec![];
     let mut counter = 0u64;
-    let mut long = |counter: &mut u64| -> Vec<u8> {
+    let long = |counter: &mut u64| -> Vec<u8> {
         *counter += 1;
         let mut v = format!("v{}", counter).into_bytes();
         v.extend(std::iter::repeat(b'.').take(70));
